@@ -32,7 +32,7 @@ let split_char c s = if s = "-" then [] else String.split_on_char c s
 
 let remiss = ref false
 
-let cfg_of (fields : string list) : cfg =
+let cfg_of (fields : string list) : cfg * (string -> string option) option =
   match fields with
   | [flags; repl; eager; re; enc] ->
     let b i = flags.[i] = '1' in
@@ -56,28 +56,29 @@ let cfg_of (fields : string list) : cfg =
           | _ -> failwith "bad enc item") (String.split_on_char ',' enc);
         Some (fun s -> match Hashtbl.find_opt tbl s with Some v -> v | None -> remiss := true; Some "<<ENC-TABLE-MISS>>")
       end in
-    { repl = hex_decode repl; nums = b 0; bools = b 1; ips = b 2; nss = b 3;
-      eager = List.map hex_decode (split_char ',' eager); re = re_f; enc = enc_f }
+    ({ repl = hex_decode repl; nums = b 0; bools = b 1; ips = b 2; nss = b 3;
+       eager = List.map hex_decode (split_char ',' eager); re = re_f }, enc_f)
   | _ -> failwith "bad CFG"
 
 let () =
-  let c = ref { repl = "REDACTED"; nums = false; bools = false; ips = false; nss = false; eager = []; re = None; enc = None } in
+  let c = ref { repl = "REDACTED"; nums = false; bools = false; ips = false; nss = false; eager = []; re = None } in
+  let e = ref None in
   (try
     while true do
       let line = input_line stdin in
       remiss := false;
       let fields = String.split_on_char ' ' line in
       (match fields with
-       | "CFG" :: rest -> c := cfg_of rest; out_s "OK"
+       | "CFG" :: rest -> let (c', e') = cfg_of rest in c := c'; e := e'; out_s "OK"
        | ["LINE"; h] ->
-         (match redact_line current current_consts !c (chars_of (hex_decode h)) with
+         (match redact_line current current_consts !c !e (chars_of (hex_decode h)) with
           | Out o -> out_s ("OUT " ^ hex_encode (string_of_chars o))
           | Skip -> out_s "SKIP")
-       | ["STREAM"; h; e; wfail; wshort; bar] ->
+       | ["STREAM"; h; en; wfail; wshort; bar] ->
          let wf = int_of_string wfail and ws = int_of_string wshort and br = int_of_string bar in
          let writer i = if wf >= 0 && int_of_nat i = wf then Fail (nat_of_int ws) else Accept in
          let barv = if br < 0 then None else Some (O, nat_of_int br) in
-         let (res, out) = run_io current current_consts !c (chars_of (hex_decode h)) (if e = "E" then REof else RErr) writer barv in
+         let (res, out) = run_io current current_consts !c !e (chars_of (hex_decode h)) (if en = "E" then REof else RErr) writer barv in
          let r = match res with ROk -> "ok" | RWriteErr -> "werr" | RScanErr STooLong -> "toolong" | RScanErr SReadErr -> "rerr" | RScanErr SOk -> "ok" in
          out_s ("RES " ^ r ^ " " ^ hex_encode (string_of_chars out))
        | ["HASH"; r; h] -> out_s (hex_encode (hash_name (hex_decode r) (hex_decode h)))
